@@ -55,6 +55,8 @@ type G struct {
 	localN   int
 	nestUsed bool
 	noByval  bool
+	// functions whose body was written by hand (ifunc resolvers): not filled by genBody
+	prebuilt map[*am.Fun]bool
 }
 
 func (g *G) off(feature string) bool {
@@ -480,6 +482,11 @@ func (g *G) globalsOfPtrType(t *am.Type) []any {
 			out = append(out, f)
 		}
 	}
+	for _, a := range g.M.Aliases {
+		if am.Equal(am.PA(a.T, a.AddrSpace), t) {
+			out = append(out, a)
+		}
+	}
 	return out
 }
 
@@ -503,7 +510,12 @@ func (g *G) ptrConst(t *am.Type, depth int) *am.Const {
 	case 1, 2:
 		if c := g.globalsOfPtrType(t); len(c) > 0 {
 			g.feat("const/global-address")
-			return &am.Const{K: am.CGlobal, T: t, Ref: c[g.intn("gref", len(c))]}
+			ref := c[g.intn("gref", len(c))]
+			if _, isFun := ref.(*am.Fun); isFun && !g.off("fnaddr-wrappers") && g.chance("fnwrap", 1, 3) {
+				g.feat("const/no_cfi")
+				return &am.Const{K: am.CNoCFI, T: t, Ref: ref}
+			}
+			return &am.Const{K: am.CGlobal, T: t, Ref: ref}
 		}
 	case 3:
 		// bitcast / addrspacecast of some global's address
